@@ -84,6 +84,11 @@ static bool typed_int(const std::string& fn, const std::vector<i128>& a)
   if(fn=="rsub_i" && n==2){ out_i((T(a[1])-fx(a[0])).v); return true; }
   if(fn=="subeq_i" && n==2){ fixed_t x=fx(a[0]); x-=T(a[1]); out_i(x.v); return true; }
   if(fn=="rdiv_i" && n==2){ out_i((T(a[1])/fx(a[0])).v); return true; }
+  // reference forms of C16: the same operation applied to a and fixed_t(t), conversion written out
+  if(fn=="ref_add_i" && n==2){ out_i((fx(a[0])+fixed_t{T(a[1])}).v); return true; }
+  if(fn=="ref_sub_i" && n==2){ out_i((fx(a[0])-fixed_t{T(a[1])}).v); return true; }
+  if(fn=="ref_rsub_i" && n==2){ out_i((fixed_t{T(a[1])}-fx(a[0])).v); return true; }
+  if(fn=="ref_rdiv_i" && n==2){ out_i((fixed_t{T(a[1])}/fx(a[0])).v); return true; }
   if(fn=="sin_angle" && n==1){ if(!in_range<T>(a[0])) return false; out_i(sin_angle(T(a[0])).v); return true; }
   if(fn=="cos_angle" && n==1){ if(!in_range<T>(a[0])) return false; out_i(cos_angle(T(a[0])).v); return true; }
   if(fn=="tan_angle" && n==1){ if(!in_range<T>(a[0])) return false; out_i(tan_angle(T(a[0])).v); return true; }
@@ -176,6 +181,12 @@ static bool eval(const std::string& fn, const std::string& tag, const std::vecto
       if(fn=="div_f"){ out_i((x / f).v); return true; }
       if(fn=="rdiv_f"){ out_i((f / x).v); return true; }
       if(fn=="diveq_f"){ x /= f; out_i(x.v); return true; }
+      if(fn=="ref_add_f"){ out_i((fx(a[0]) + fixed_t{f}).v); return true; }
+      if(fn=="ref_sub_f"){ out_i((fx(a[0]) - fixed_t{f}).v); return true; }
+      if(fn=="ref_rsub_f"){ out_i((fixed_t{f} - fx(a[0])).v); return true; }
+      if(fn=="ref_mul_f"){ out_i((fx(a[0]) * fixed_t{f}).v); return true; }
+      if(fn=="ref_div_f"){ out_i((fx(a[0]) / fixed_t{f}).v); return true; }
+      if(fn=="ref_rdiv_f"){ out_i((fixed_t{f} / fx(a[0])).v); return true; }
       }
     return detail_op(fn, tag, a);
     }
